@@ -132,7 +132,7 @@ CHECKS["C01"] = dict(
     assumptions=["valid pointers only: NULL is passed only where the header defines it (to_string text buffer)", "field lookups only while positioned inside an object, as documented"],
     jobs=[dict(name="c01", src=API, build="gasan", mode="c01", cases=(1500000, 20000000), require=["api_calls", "call_leave_object", "call_field_with_length", "call_to_string", "call_get_raw"]),
           dict(name="c01clang", src=API, build="casan", mode="c01", cases=(0, 5000000), thorough_only=True),
-          dict(name="c01vg", src=API, build="plainO1g", mode="c01", cases=(0, 40000), thorough_only=True, wrap="valgrind -q --error-exitcode=99 --undef-value-errors=no", crash_is_violation=False, timeout=7200)],
+          dict(name="c01vg", src=API, build="plainO1g", mode="c01", cases=(0, 600000), thorough_only=True, wrap="valgrind -q --error-exitcode=99 --undef-value-errors=no", crash_is_violation=False, timeout=7200)],
 )
 ENGINE_NOTES["w_api.c"] = "hostile random API sequences over arbitrary bytes; memory monitors (C01) or token-callback work counter (C16)"
 BUILDS["plainO1g"] = dict(cc="gcc", cxx="g++", flags="-O1 -g")
@@ -167,7 +167,7 @@ CHECKS["C04"] = dict(
     assumptions=["lengths > INT32_MAX (FORMAT, needs a > 2 GiB source) and NULL data pointers are outside the workload", "binson_writer_verify is never called on an overflowed writer (no property covers it)"],
     jobs=[dict(name="c04", src=WRITER, build="gasan", mode="c04", cases=(150000, 2500000), require=["capacity_runs", "write_calls"]),
           dict(name="c04clang", src=WRITER, build="casan", mode="c04", cases=(0, 400000), thorough_only=True),
-          dict(name="c04vg", src=WRITER, build="plainO1g", mode="c04", cases=(0, 1600), thorough_only=True, wrap="valgrind -q --error-exitcode=99 --undef-value-errors=no", timeout=7200)],
+          dict(name="c04vg", src=WRITER, build="plainO1g", mode="c04", cases=(0, 16000), thorough_only=True, wrap="valgrind -q --error-exitcode=99 --undef-value-errors=no", timeout=7200)],
 )
 CHECKS["C05"] = dict(
     level_text="The writer's bytes are compared with an independent encoder and decoded back with the real parser: every integer within 2^14 (quick) / 2^16 (thorough) of +-2^k for k=0..63, "
@@ -249,7 +249,7 @@ CHECKS["C13"] = dict(
     assumptions=["the text content itself is judged by C14; here only the protocol (sizes, terminator, identical text at all sufficient capacities, no store beyond capacity)"],
     jobs=[dict(name="c13", src=TEXT, build="gasan", mode="c13", cases=(12000, 600000), require=["to_string_calls", "valid_documents", "invalid_documents"]),
           dict(name="c13clang", src=TEXT, build="casan", mode="c13", cases=(0, 200000), thorough_only=True),
-          dict(name="c13vg", src=TEXT, build="plainO1g", mode="c13", cases=(0, 1600), thorough_only=True, wrap="valgrind -q --error-exitcode=99 --undef-value-errors=no", timeout=7200)],
+          dict(name="c13vg", src=TEXT, build="plainO1g", mode="c13", cases=(0, 8000), thorough_only=True, wrap="valgrind -q --error-exitcode=99 --undef-value-errors=no", timeout=7200)],
 )
 CHECKS["C14"] = dict(
     level_text="The text produced by to_string (ample capacity) is compared byte for byte with an independent reference renderer, and the bytes binson_parser_print writes to stdout (captured through a memfd) "
